@@ -6,7 +6,8 @@ Design spec  spec/Topo.tla (+ MCTopo.tla, MCTopo_*.cfg)
   A topology denotes a set of cells over the atoms of the dyadic grid of maximal depth L (unit boxes; half
   squares for simplex / mixed meshes); one action per public topology operation (refined, refine_spaces,
   refined_by, refined_by & refined_by, take, subset, -, |, slicing, trim and its complement), a structure tag
-  that mirrors which nutils class results and hence which operations / observations the implementation offers.
+  that mirrors which nutils class results and hence which operations / observations the implementation offers;
+  level sets are half spaces on the dyadic grid (trim) and max / min of two of them (trim2, non-convex elements).
   Invariants (the text of C10): Disjoint, WithinHull, BoundaryClosed (sum n = 0, flux of x = D V),
   InterfacesOnce, FacetPartition, CutShared; action property StepConserves (refinement preserves the atom set of
   every element, selections drop whole elements only, trim + complement partition every element).
@@ -16,7 +17,7 @@ Design spec  spec/Topo.tla (+ MCTopo.tla, MCTopo_*.cfg)
 Binding S->C  spec/TopoEval.tla + c10_replay.py
   Behaviours chosen by TLC (operation histories) together with the model's predicted observation of every state
   (element keys, measures, moments, boundary facet atoms with normals, interior facet atoms with their two
-  cells, complement and cut after a trim) are replayed step by step on real nutils topologies
+  cells, named boundary groups, complement, cut and trimmed | complement after a trim) are replayed step by step on real nutils topologies
   (mesh.rectilinear incl. periodic, newrectilinear products, multipatch, unitsquare triangle / mixed) and
   compared after every step.  The model is the oracle.
 """
@@ -33,7 +34,7 @@ from .. import tlc
 
 LEVEL = 'model_checking'
 
-ACTIONS = ['Refine', 'RefSpace', 'RefBy', 'HierAnd', 'Take', 'Select', 'Remove', 'Union', 'Slice', 'Trim']
+ACTIONS = ['Refine', 'RefSpace', 'RefBy', 'HierAnd', 'Take', 'Select', 'Remove', 'Union', 'Slice', 'Trim', 'Trim2']
 MUTANTS = {'child-drop': ('StepProp', 'BoundaryClosed', 'StepConserves'), 'trim-overlap': ('Disjoint',), 'nb-skew': ('InterfacesOnce', 'BoundaryClosed', 'FacetPartition')}
 NPROC = 4
 
@@ -44,6 +45,8 @@ WITNESSES = [
     dict(base='line2', L=1, hist=[dict(op='trim', a=[1, 2, 1, 0], S=[], T=[]), dict(op='trim', a=[1, 1, 1, 0], S=[], T=[])]),
     dict(base='rect21', L=1, hist=[dict(op='trim', a=[1, 3, 1, 1], S=[], T=[]), dict(op='trim', a=[2, 1, -1, 1], S=[], T=[])]),
     dict(base='line3p', L=1, hist=[dict(op='trim', a=[1, 5, -1, 0], S=[], T=[]), dict(op='trim', a=[1, 4, -1, 0], S=[], T=[])]),
+    dict(base='rect21', L=2, hist=[dict(op='trim2', a=[1, -1, 2, 1, 2, 0], S=[], T=[]), dict(op='trim', a=[1, 1, 1, 2], S=[], T=[])]),
+    dict(base='rect22', L=1, hist=[dict(op='trim2', a=[1, 1, 2, -1, 1, 0], S=[], T=[]), dict(op='trim2', a=[3, -1, 2, -1, 1, 1], S=[], T=[])]),
 ]
 
 
@@ -73,9 +76,9 @@ def plan(tier, seed):
         jobs['mutant-' + mut] = ('MCTopo', dict(cfg_text=_cfg('Bases_mutant', 2, 1, 1, mutant=mut, emit=None), workers=1), True)
     else:
         jobs['ex1'] = ('MCTopo', dict(cfg='MCTopo_quick.cfg', coverage=True, workers=1), True)
-        for fam in ('line', 'rect', 'conn', 'mul'):
+        for fam in ('line', 'rect', 'conn', 'mul', 'trim2'):
             jobs['ex2-' + fam] = ('MCTopo', dict(cfg='MCTopo_{}.cfg'.format(fam), workers=1, timeout=1500), True)
-        jobs['ex3-line'] = ('MCTopo', dict(cfg_text=_cfg('Bases_one', 3, 1, 1, ref='Ref_1', emit='EmitHist'), workers=1, timeout=1500), True)
+        jobs['ex3-line'] = ('MCTopo', dict(cfg_text=_cfg('Bases_one', 3, 1, 1, ops='Ops_deep', ref='Ref_1', emit='EmitHist'), workers=1, timeout=1500), True)
         jobs['sim'] = ('MCTopo', dict(cfg='MCTopo_sim.cfg', simulate=dict(num=120), depth=5, seed=seed, workers=1, timeout=500), False)
         jobs['sim-deep'] = ('MCTopo', dict(cfg='MCTopo_simdeep.cfg', simulate=dict(num=40), depth=7, seed=seed + 1, workers=1, timeout=500), False)
         for m in sorted(MUTANTS):
@@ -255,11 +258,11 @@ def run(rep):
     rng = random.Random(rep.seed)
     jobs = plan(rep.tier, rep.seed)
     # seconds of replay after the TLC runs (VF_C10_BUDGET overrides, for heavily loaded machines)
-    budget = float(os.environ.get('VF_C10_BUDGET') or (45 if quick else 600))
+    budget = float(os.environ.get('VF_C10_BUDGET') or (45 if quick else 420))
     rep.constants['Topo'] = ('bases line3/line3p/rect22/rect32p/mp21/tri1/mix2/mul22 (+ periodic line2p), depth L<=2: every denotation reachable by 1 operation '
                              'exhaustively; simulation to 3 operations' if quick else
                              'line/rect/connected/product bases, L<=3: every denotation reachable by 2 operations exhaustively (3 on line3); simulation to 6 operations')
-    cases, preds = generate(rep, jobs, rng, 260 if quick else 2600)
+    cases, preds = generate(rep, jobs, rng, 260 if quick else 1500)
     replay(rep, cases, preds, budget)
 
     rep.rule = ('cases = states of replayed behaviours (base mesh + history of topology operations), each compared with the model in elements, '
